@@ -191,7 +191,20 @@ def _worker(args):
                 stats.setdefault("inconclusive_cases", []).append(c.script)
                 continue
             stats["evaluations"] += 1
-            vs, obs, nontrivial = eng.judge(prop, c, lg)
+            fin = getattr(lg, "fin", None) or {}
+            if fin.get("runaway"):
+                # step-count verdict of the interposer: a forked child exceeded its call budget
+                # (a loop over descriptors/signals that would not end); the trace is not meaningful
+                vs, obs, nontrivial = [Violation(prop, "%s/runaway-child-loop:%s" % (prop, fin["runaway"]),
+                                                 "the forked child made more than 400000 calls (last: %s) before exec: a loop that does not end" % fin["runaway"])], {}, True
+            elif fin.get("overflow"):
+                # more library calls in one case than the trace area holds: the judges would see
+                # a truncated trace - not a verdict either way
+                stats["inconclusive"] += 1
+                stats.setdefault("inconclusive_cases", []).append("trace-overflow: " + c.script)
+                continue
+            else:
+                vs, obs, nontrivial = eng.judge(prop, c, lg)
             for k, v in obs.items():
                 if isinstance(v, set):
                     stats["obs"].setdefault(k, set()).update(v)
@@ -303,7 +316,7 @@ def conclude(prop, tier, seed, level, total, viols, t0, rule, min_obs=None, extr
     obs = {k: (len(v) if isinstance(v, set) else v) for k, v in total["obs"].items()}
     inconclusive = []
     if total["inconclusive"]:
-        inconclusive.append("%d cases hit the watchdog twice" % total["inconclusive"])
+        inconclusive.append("%d cases hit the watchdog twice or overflowed the trace area" % total["inconclusive"])
         for sc in total.get("inconclusive_cases", [])[:3]:
             print("WATCHDOG case: %s" % sc)
     for k, need in (min_obs or {}).items():
